@@ -41,6 +41,8 @@ def run(repo: Repo, tier: str, res: CheckResult, seed: int = 0) -> None:
     union_dumper(repo, res)
     literal_rules(repo, res)
     container_outer_forms(repo, res)
+    container_passthrough(repo, res)
+    regex_guards(repo, res)
     unwrapping(repo, res)
     res.assumptions = list(ASSUMPTIONS)
 
@@ -357,6 +359,25 @@ def literal_rules(repo: Repo, res: CheckResult) -> None:
             kinds[a.targets[0].id] = "typed" if "type(" in norm(arg) else "plain"
     if "plain" not in kinds.values():
         raise AnalysisError("LiteralProvider._make_loader: plain collection of cases not found")
+    # the membership collection holds exactly the values it is given (no substitution by another collection)
+    gc = ci.methods.get("_get_allowed_values_collection")
+    if gc is None:
+        raise AnalysisError("anchor vanished: LiteralProvider._get_allowed_values_collection")
+    a0 = func_params(gc)[1]
+    res.evaluated("literal:collection-of-cases", True)
+    for r in [x for x in walk_no_nested(gc) if isinstance(x, ast.Return) and x.value is not None]:
+        v = r.value
+        ok = isinstance(v, ast.Call) and norm(v.func) in ("set", "tuple", "frozenset", "list") and [norm(a) for a in v.args] == [a0] \
+            and not v.keywords
+        if not ok:
+            res.add(Finding("C02", "LITERAL.collection-not-the-cases", m.rel, "LiteralProvider._get_allowed_values_collection", norm(r),
+                            f"the membership collection must contain exactly the given cases (`set({a0})` / `tuple({a0})`), found "
+                            f"`{norm(v)}`: loaded enum members / data are compared with something else than the Literal's "
+                            "arguments", r.lineno))
+    for c in ast.walk(fn):
+        if isinstance(c, ast.Call) and norm(c.func) == "self._get_allowed_values_collection" and (len(c.args) != 1 or c.keywords):
+            res.add(Finding("C02", "LITERAL.collection-not-the-cases", m.rel, "LiteralProvider._make_loader", norm(c)[:120],
+                            "the membership collection is built from the cases alone", c.lineno))
     n = 0
     for c in ast.walk(fn):
         if isinstance(c, ast.Call) and norm(c.func) in ("self._get_literal_loader_with_enum", "self._get_literal_loader_with_bytes"):
@@ -432,6 +453,63 @@ def container_outer_forms(repo: Repo, res: CheckResult) -> None:
                     res.add(Finding("C02", "OUTER.dict-accepts-mapping", md.rel, f"DictProvider.{mname}.{cl.name}", "items()",
                                     "the loader accepts any Mapping (it reads the items of the datum)", cl.lineno))
     res.count("OUTER.dict-closures", n, 6)
+
+
+def container_passthrough(repo: Repo, res: CheckResult) -> None:
+    """documented: container dumpers/loaders CONSTRUCT the outer container (dict / tuple / list); handing the argument back
+    (as_is_stub) keeps OrderedDict, MappingProxyType, generators ... in the dumped data"""
+    n = 0
+    for short, cname in (("morphing/dict_provider", "DictProvider"), ("morphing/dict_provider", "DefaultDictProvider"),
+                         ("morphing/iterable_provider", "IterableProvider"),
+                         ("morphing/constant_length_tuple_provider", "ConstantLengthTupleProvider")):
+        m = repo.mod(short)
+        ci = m.classes.get(cname)
+        if ci is None:
+            raise AnalysisError(f"anchor vanished: {cname}")
+        for mname, fn in ci.methods.items():
+            if not (mname.startswith(("provide_loader", "provide_dumper", "_make_", "_get_"))):
+                continue
+            for r in [x for x in walk_no_nested(fn) if isinstance(x, ast.Return) and x.value is not None]:
+                n += 1
+                res.evaluated(f"outer:passthrough:{cname}.{mname}:{norm(r.value)[:30]}", True)
+                if any(isinstance(x, ast.Name) and x.id in ("as_is_stub", "as_is_stub_with_ctx") for x in ast.walk(r.value)) \
+                        and not isinstance(r.value, ast.Compare):
+                    res.add(Finding("C02", "OUTER.container-passthrough", m.rel, f"{cname}.{mname}", norm(r),
+                                    f"{cname} answers with the as-is stub: the {'dumped' if 'dump' in mname else 'loaded'} value is "
+                                    "the argument itself, not the documented newly constructed dict/tuple/list (a "
+                                    "MappingProxyType, OrderedDict or generator passes straight through)", r.lineno))
+    res.count("OUTER.container-provider-returns", n, 20)
+
+
+def regex_guards(repo: Repo, res: CheckResult) -> None:
+    """a compiled pattern that validates a whole datum must be applied with fullmatch (or end with \\Z): `$` also matches
+    before a trailing newline, `match`/`search` accept trailing garbage"""
+    n = 0
+    for m in repo.modules.values():
+        if "/morphing/" not in m.rel:
+            continue
+        pats = {}
+        for st in m.tree.body:
+            if isinstance(st, ast.Assign) and isinstance(st.value, ast.Call) and norm(st.value.func) in ("re.compile", "compile") \
+                    and isinstance(st.targets[0], ast.Name) and st.value.args and isinstance(st.value.args[0], ast.Constant):
+                pats[st.targets[0].id] = st.value.args[0].value
+        for c in ast.walk(m.tree):
+            if isinstance(c, ast.Call) and isinstance(c.func, ast.Attribute) and isinstance(c.func.value, ast.Name) \
+                    and c.func.value.id in pats and c.func.attr in ("match", "search", "fullmatch"):
+                n += 1
+                pat = pats[c.func.value.id]
+                ptxt = pat.decode("latin1") if isinstance(pat, bytes) else str(pat)
+                res.evaluated(f"regex-guard:{m.rel}:{c.func.value.id}.{c.func.attr}", True)
+                if c.func.attr == "fullmatch":
+                    continue
+                anchored_end = ptxt.endswith("\\Z")
+                anchored_start = c.func.attr == "match" or ptxt.startswith(("\\A", "^"))
+                if not (anchored_end and anchored_start):
+                    res.add(Finding("C02", "REGEX.not-full-match", m.rel, m.qualname(c), f"{c.func.value.id}.{c.func.attr}({ptxt[:40]})",
+                                    f"the validating pattern `{ptxt[:60]}` is applied with `{c.func.attr}`"
+                                    + (" and ends with `$`, which also matches before a trailing newline" if ptxt.endswith("$") else "")
+                                    + ": data with trailing characters the documented format does not allow is accepted", c.lineno))
+    res.coverage["regex_guards"] = n
 
 
 # ------------------------------------------------------------------------------------------ (g) unwrapping providers
